@@ -21,9 +21,10 @@ RULES = {
     "R5": "a CLI defining --seed and reaching a randomised callee wires it",
     "R6": "no lru_cache/cache-memoised function returns SeedSequence/Generator state",
     "R7": "nothing derived from a passed generator is stored on self / cls / a module global by a stateless randomised operation",
+    "R9": "the seeded generator is installed on the model unconditionally before the chain's first step (C17.R1 run here): a set_rng that runs only when the model has no generator yet leaves a refit / a second chain drawing from the previous call's generator",
     "R8": "a seed of 0 is a seed: no seeding constructor receives None (OS entropy) when the seed value is falsy",
 }
-MIN = {"R1": 1, "R2": 3, "R3": 20, "R4": 3, "R5": 4, "R6": 1, "R7": 10, "R8": 5}
+MIN = {"R1": 1, "R2": 3, "R3": 20, "R4": 3, "R5": 4, "R6": 1, "R7": 10, "R8": 5, "R9": 2}
 TRUSTED = ["numpy Generator methods are deterministic functions of the generator state", "import aliases resolved from module-level imports"]
 TECHNIQUE = "resolved-callee who-may-call rule (API allow-list), parameter-threading check over the call graph, def-use of the stored generator"
 LEVEL_TEXT = ("Determinism in (inputs, generator) is a discipline visible in the code: every draw must come from the "
@@ -149,8 +150,9 @@ def r2(ctx):
             d = dotted(R, f.mod, c.func)
             if d != "numpy.random.default_rng":
                 continue
-            if c.args or c.keywords:
-                continue
+            seed_args = list(c.args) + [k.value for k in c.keywords]
+            if seed_args and not (len(seed_args) == 1 and isinstance(seed_args[0], ast.Constant) and seed_args[0].value is None):
+                continue            # default_rng(None) - e.g. a helper's `default_rng(rng)` reached without its rng argument - is default_rng()
             par = par or enclosing_map(f.node)
             # must be `rng = default_rng()` directly under `if rng is None:`
             asg = par.get(c)
@@ -438,7 +440,12 @@ def run(ctx):
     r8(ctx)
 
 
-RULE_FUNCS = [r1, r2, r3, r4, r5, r6, r7, r8]
+def r9(ctx):
+    from . import C17
+    ctx.borrow(C17.r1_order, "R9")
+
+
+RULE_FUNCS = [r1, r2, r3, r4, r5, r6, r7, r8, r9]
 
 
 def _rep(a, b):
@@ -450,6 +457,8 @@ def _rep(a, b):
 
 
 WITNESSES = [
+    ("generator installed only when the model has none", "batchie.sampling", _rep("            model.set_rng(rng)\n", "            if model.rng is None:\n                model.set_rng(rng)\n"), ["R9"]),
+    ("helper reached without its rng argument", "batchie.retrospective", _rep("                chosen_selection_index = rng.choice(selection_indices, size=1)\n                chosen_selection_indices.append(chosen_selection_index)\n                covered_treatments.update(", "                chosen_selection_index = np.random.default_rng(None).choice(selection_indices, size=1)\n                chosen_selection_indices.append(chosen_selection_index)\n                covered_treatments.update("), ["R2"]),
     ("seed 0 falls back to OS entropy", "batchie.sampling", _rep("numpy.random.SeedSequence(seed).spawn(n_chains)", "numpy.random.SeedSequence(seed or None).spawn(n_chains)"), ["R8"]),
     ("random scorer memoises its scores on the instance", "batchie.scoring.rand", _rep("        scores = {k: rng.random() for k in plates.keys()}\n        return scores", "        if getattr(self, '_scores', None) is None:\n            self._scores = {k: rng.random() for k in plates.keys()}\n        return self._scores"), ["R7"]),
     ("generator uses global permutation", "batchie.retrospective", _rep("new_plate_names = rng.permutation(to_permute.plate_names)", "new_plate_names = np.random.permutation(to_permute.plate_names)"), ["R1"]),
